@@ -29,6 +29,29 @@ def sizes_for(M, n):
             "partialGradByCoeffs.rows": n * M.K, "partialGradByTimes.rows": n, "partialGradByTimes.size": n}
 
 
+def history_returns(runs, fieldnames):
+    """[(guard text, members)]: content of class members that an operation (re)computes only past an early return taken on
+    the size a member buffer was left with by earlier calls - whenever the sizes happen to agree the members keep what an
+    earlier problem left in them.  (Skipping a mere resize is a grow-only buffer and is fine.)"""
+    from .. import history
+    out = []
+    for kind, I in runs.items():
+        for e in I.effects:
+            if e.op != "guard-return" or getattr(e, "cond", None) is None or not history.is_history_guard(e.cond, I):
+                continue
+            txt = e.guards[0][0]
+            content = lambda effs: [x for x in effs if (txt, False) in (x.guards or []) and x.op not in ("resize", "clear", "reserve", "guard-return") and x.target in fieldnames]
+            effs = content(I.effects)
+            stack = list(I.loops)
+            while stack:
+                L = stack.pop()
+                effs += content(L.effects)
+                stack += L.inner
+            if effs:
+                out.append((txt, sorted({x.target for x in effs})))
+    return out
+
+
 def skip_handover(c, e, env, I):
     if c.get("name") == "update" and "PPolyND" in str(c.get("cls", "")):
         return None
@@ -133,6 +156,30 @@ def run(chk):
                 chk.ob("C10-R1", "%s update/%d stores each of the four inputs (durations, waypoints, start time, boundary states) before the common routine reads them" % (cls, len(up["params"])),
                        not missing, loc(up), "never written on any path of this overload: %s" % missing if missing else "members written: %s" % sorted(w & inputs),
                        construct="%s/update%d/stores-inputs" % (cls, len(up["params"])))
+            # a truth-valued member that some update overload maintains and another overload only reads in a condition: for
+            # the latter the branch taken is decided by an earlier call
+            bools = {x["name"] for x in rec["fields"] if x["ty"].get("c") == "bool"}
+            wr_by = {}
+            rd_by = {}
+            for up in ups:
+                wr_by[up["fid"]] = {p[1] for p, h, nd in E.function_writes(up) if p[0] == "this" and len(p) >= 2} & bools
+                rd = {}
+                for g in [up] + [g_ for g_ in F.reachable(up, stop=lambda h_: h_.get("cls") != cls) if g_.get("cls") == cls]:
+                    for nd in walk(g.get("body")):
+                        c_ = nd.get("cond") if nd.get("k") in ("if", "while", "for", "dowhile") else (nd.get("c") if nd.get("k") == "cond" else None)
+                        if c_ is None or nd.get("constexpr"):
+                            continue
+                        for x in walk(c_):
+                            if x.get("k") == "mem" and (x.get("base") or {}).get("k") == "this" and x.get("field") in bools:
+                                rd.setdefault(x["field"], (g, nd))
+                rd_by[up["fid"]] = rd
+            maintained = set().union(*wr_by.values()) if wr_by else set()
+            for up in ups:
+                stale = sorted(fl for fl in rd_by[up["fid"]] if fl in maintained and fl not in wr_by[up["fid"]])
+                where = rd_by[up["fid"]][stale[0]] if stale else None
+                chk.ob("C10-R1", "%s update/%d sets every member flag it branches on and that the update paths maintain" % (cls, len(up["params"])), not stale,
+                       loc(where[0], where[1]) if where else loc(up), "read in a condition, set by another overload only: %s" % stale if stale else "flags read in conditions: %s" % sorted(rd_by[up["fid"]]),
+                       construct="%s/update%d/sets-its-flags" % (cls, len(up["params"])))
             for n in ns:
                 for up in ups:
                     make_env = lambda I, up=up: {p["id"]: I.make_value(p["name"], p["ty"]) for p in up["params"]}
@@ -173,6 +220,10 @@ def run(chk):
                             cls, len(up["params"]), n, sorted(h.rsplit(".", 1)[0] for h in hs)), worst is None, loc(up),
                             ("with the buffer %s than needed: %s" % worst) if worst else "replayed with the buffer smaller and larger than needed", construct="%s/update%d/N%d/history-sizes" % (cls, len(up["params"]), n))
                         continue
+                    hr = history_returns(runs, {x["name"] for x in rec["fields"]})
+                    if hr or n == ns[0]:
+                        chk.ob("C10-R1", "%s update/%d with N=%d: nothing is computed only past an early return on the size a member buffer was left with" % (cls, len(up["params"]), n), not hr, loc(up),
+                               "past `if (%s) return`: %s" % hr[0] if hr else "no such early return", construct="%s/update%d/N%d/no-history-return" % (cls, len(up["params"]), n))
                     bad_aff = check_affine_tree(runs["middle"].trace)
                     if bad_aff:
                         raise Broken("non-affine index in %s: %s" % (up["full"], bad_aff[:2]))
@@ -203,6 +254,10 @@ def run(chk):
                         if history_guard(chk, F, cls, M, q, n, str(ex), getattr(ex, "cond", None)):
                             continue
                         raise
+                    hr = history_returns(runs, {x["name"] for x in rec["fields"]})
+                    if hr or n == ns[0]:
+                        chk.ob("C10-R1", "%s %s with N=%d: nothing is computed only past an early return on the size a member buffer was left with" % (cls, qn, n), not hr, loc(q),
+                               "past `if (%s) return`: %s" % hr[0] if hr else "no such early return", construct="%s/%s/N%d/no-history-return" % (cls, qn, n))
                     st = State()
                     st.c = copy.deepcopy(base_state.c)
                     R = Replay(sizes_for(M, n), state=st, op_name=qn)
